@@ -6,8 +6,6 @@ package main
 // inputs; they never decide a property.
 
 import (
-	"strconv"
-	"regexp"
 	"context"
 	"encoding/json"
 	"errors"
@@ -15,6 +13,8 @@ import (
 	"math"
 	"math/rand"
 	"reflect"
+	"regexp"
+	"strconv"
 	"strings"
 
 	"github.com/theory/sqljson/path"
